@@ -1,1 +1,51 @@
-From PC Require Import Model.VConstraint.
+(* C12 — containment, overlap and emptiness answers about version constraints are never wrong. *)
+From Coq Require Import List Bool NArith String.
+From PC Require Import Base.Cmp Base.Result Model.Pep440 Spec.Pep440Spec Model.VConstraint
+     Proofs.VersionFacts Proofs.RangeSpec Proofs.RangeAlg Proofs.RangeOps.
+Import ListNotations.
+
+(* full statement, kept visible (unions included); proved below for two VersionRange operands *)
+Definition C12_full_statement : Prop :=
+  forall a b v x y, allows a v = Ok x -> allows b v = Ok y ->
+    forallb (regular1 v) (cbounds a ++ cbounds b) = true ->
+    (allows_all a b = true -> y = true -> x = true) /\
+    (allows_any a b = Ok false -> x && y = false).
+
+Theorem C12_allows_all_sound_partial : forall lo hi i j lo' hi' i' j' v,
+  let a := RR lo hi i j in let b := RR lo' hi' i' j' in
+  wf_rng a = true -> wf_rng b = true -> wf v = true -> regular_r v a = true -> regular_r v b = true ->
+  allows_all (VOne a) (VOne b) = true -> r_allows b v = true -> r_allows a v = true.
+Proof.
+  intros lo hi i j lo' hi' i' j' v a b Wa Wb Wv Ra Rb H.
+  rewrite (allows_regular a v Wa Wv Ra), (allows_regular b v Wb Wv Rb).
+  exact (rr_allows_all_sound lo hi i j lo' hi' i' j' v Wa Wb Ra Rb H).
+Qed.
+Print Assumptions C12_allows_all_sound_partial.
+
+Theorem C12_allows_any_sound_partial : forall lo hi i j lo' hi' i' j' v,
+  let a := RR lo hi i j in let b := RR lo' hi' i' j' in
+  wf_rng a = true -> wf_rng b = true -> wf v = true -> regular_r v a = true -> regular_r v b = true ->
+  allows_any (VOne a) (VOne b) = Ok false -> r_allows a v && r_allows b v = false.
+Proof.
+  intros lo hi i j lo' hi' i' j' v a b Wa Wb Wv Ra Rb H.
+  rewrite (allows_regular a v Wa Wv Ra), (allows_regular b v Wb Wv Rb).
+  apply (rr_allows_any_sound lo hi i j lo' hi' i' j' v Wa Wb Ra Rb).
+  cbn in H. injection H as H. exact H.
+Qed.
+Print Assumptions C12_allows_any_sound_partial.
+
+(* flags: unconditional, every probe (no regularity, no well-formedness) *)
+Theorem C12_flags : forall c v,
+  (is_empty c = true -> allows c v = Ok false) /\
+  (is_any c = true -> allows c v = Ok true).
+Proof.
+  intros c v. split.
+  - destruct c; try discriminate. reflexivity.
+  - destruct c as [|[x|[lo|] [hi|] i j]|l]; try discriminate. reflexivity.
+Qed.
+Print Assumptions C12_flags.
+
+Theorem C12_range_allows_all_self : forall lo hi i j,
+  allows_all (VOne (RR lo hi i j)) (VOne (RR lo hi i j)) = true.
+Proof. exact rr_allows_all_self. Qed.
+Print Assumptions C12_range_allows_all_self.
